@@ -393,6 +393,7 @@ func errTestsSound(info *types.Info, scope ast.Node, v types.Object, from token.
 		return u
 	}
 	tested := false
+	partialSeen := false
 	problem := ""
 	reassigned := token.Pos(0)
 	ast.Inspect(scope, func(n ast.Node) bool {
@@ -404,6 +405,11 @@ func errTestsSound(info *types.Info, scope ast.Node, v types.Object, from token.
 			// the variable is overwritten by another call: stop looking further
 			if x.Pos() >= from {
 				sameClass := false
+				if len(x.Rhs) == 1 {
+					if id, ok := ast.Unparen(x.Rhs[0]).(*ast.Ident); ok && id.Name == "nil" {
+						sameClass = true // err = nil is a swallow (judged where it stands), not a new error value
+					}
+				}
 				if len(x.Rhs) == 1 {
 					if call, ok := ast.Unparen(x.Rhs[0]).(*ast.CallExpr); ok {
 						sameClass, _ = isStreamRead(info, call)
@@ -422,14 +428,35 @@ func errTestsSound(info *types.Info, scope ast.Node, v types.Object, from token.
 			if reassigned != 0 && x.Pos() > reassigned {
 				return true
 			}
-			tested = true
-			// restricted to EOF?
+			// a test weakened by a conjunct that does not concern the error (err != nil && n == 0)
+			// lets errors through: it is not the test that consumes the error
 			if mentionsObj(info, x.Cond, "io", "EOF") && !condNegatesEOF(info, x.Cond) {
-				return true
+				return true // a clause restricted to the clean end of stream: neither consumes nor loses other errors
 			}
-			if blockDiverges(info, x.Body) {
-				// fatal or return: a return must depend on err
-				if r, ok := x.Body.List[len(x.Body.List)-1].(*ast.ReturnStmt); ok {
+			partial := false
+			for _, cj := range conjuncts(x.Cond) {
+				if !uses(cj) {
+					partial = true
+				}
+			}
+			if partial {
+				partialSeen = true
+				return false // what happens inside does not cover the other case
+			}
+			// which branch is taken for a genuine (non-EOF) error?
+			var errBranch *ast.BlockStmt
+			switch evalAssumingUEOF(info, x.Cond) {
+			case 1:
+				errBranch = x.Body
+			case 0:
+				errBranch, _ = x.Else.(*ast.BlockStmt)
+			}
+			if errBranch == nil {
+				return true // no branch for the error case here: not the consuming test
+			}
+			if blockDiverges(info, errBranch) {
+				tested = true
+				if r, ok := errBranch.List[len(errBranch.List)-1].(*ast.ReturnStmt); ok {
 					dep := false
 					for _, res := range r.Results {
 						if uses(res) {
@@ -442,8 +469,8 @@ func errTestsSound(info *types.Info, scope ast.Node, v types.Object, from token.
 				}
 				return true
 			}
-			// non-diverging body: err = nil style swallowing
-			ast.Inspect(x.Body, func(m ast.Node) bool {
+			// non-diverging error branch: err = nil style swallowing
+			ast.Inspect(errBranch, func(m ast.Node) bool {
 				if as, ok := m.(*ast.AssignStmt); ok && len(as.Lhs) == 1 && len(as.Rhs) == 1 {
 					if id, ok := as.Lhs[0].(*ast.Ident); ok && info.ObjectOf(id) == v {
 						if rid, ok := as.Rhs[0].(*ast.Ident); ok && rid.Name == "nil" {
@@ -456,7 +483,7 @@ func errTestsSound(info *types.Info, scope ast.Node, v types.Object, from token.
 		case *ast.ReturnStmt:
 			if x.Pos() >= from && (reassigned == 0 || x.Pos() < reassigned) {
 				for _, r := range x.Results {
-					if uses(r) {
+					if uses(r) && !underUnrelatedCondition(scope, x, uses) {
 						tested = true
 					}
 				}
@@ -466,6 +493,9 @@ func errTestsSound(info *types.Info, scope ast.Node, v types.Object, from token.
 	})
 	if problem != "" {
 		return false, problem
+	}
+	if !tested && partialSeen {
+		return false, "its error is only tested together with an unrelated condition (err != nil && …): when that condition is false the read error is lost and the data read so far is processed as a complete input"
 	}
 	if !tested {
 		return false, "its error is never tested or returned"
@@ -493,4 +523,49 @@ func exprList(es []ast.Expr) string {
 		parts = append(parts, types.ExprString(e))
 	}
 	return strings.Join(parts, ", ")
+}
+
+func conjuncts(e ast.Expr) []ast.Expr {
+	e = ast.Unparen(e)
+	if b, ok := e.(*ast.BinaryExpr); ok && b.Op == token.LAND {
+		return append(conjuncts(b.X), conjuncts(b.Y)...)
+	}
+	return []ast.Expr{e}
+}
+
+// underUnrelatedCondition: the statement is nested in an if whose condition
+// does not concern the error (a return of err under 'mimeType == nil' does
+// not consume the error on the other branch).
+func underUnrelatedCondition(scope ast.Node, target ast.Node, uses func(ast.Node) bool) bool {
+	found := false
+	var stack []ast.Node
+	var walk func(n ast.Node) bool
+	walk = func(n ast.Node) bool {
+		if n == nil {
+			return false
+		}
+		if n == target {
+			for _, anc := range stack {
+				if ifs, ok := anc.(*ast.IfStmt); ok && !uses(ifs.Cond) {
+					found = true
+				}
+			}
+			return true
+		}
+		stack = append(stack, n)
+		done := false
+		ast.Inspect(n, func(m ast.Node) bool {
+			if m == nil || m == n || done {
+				return m == n
+			}
+			if walk(m) {
+				done = true
+			}
+			return false
+		})
+		stack = stack[:len(stack)-1]
+		return done
+	}
+	walk(scope)
+	return found
 }
